@@ -1,5 +1,533 @@
 package main
 
-func cmdCheck(prop, tier string) int { return 2 }
-func cmdSelftest(args []string) int  { return 2 }
-func cmdBaseline() int               { return 2 }
+// Property checks: map a property to the units (functions under contract)
+// that serve it, discharge their obligations, triage failures against the
+// known-findings file and the baseline, replay counterexamples, write evidence.
+
+import (
+	"encoding/json"
+	"fmt"
+	"os"
+	"path/filepath"
+	"sort"
+	"strconv"
+	"strings"
+	"time"
+)
+
+type KnownFinding struct {
+	Kind     string `json:"kind"` // "known" | "fixed"
+	Property string `json:"property"`
+	Fn       string `json:"fn"`
+	Class    string `json:"class"`
+	Label    string `json:"label,omitempty"`  // ensures/pre label if any
+	Match    string `json:"match,omitempty"`  // substring of the source line at the failing site
+	What     string `json:"what"`
+	Input    string `json:"input,omitempty"`  // the specific failing input / call site / history
+	Commit   string `json:"commit,omitempty"` // for fixed
+}
+
+type KnownFile struct {
+	Findings []KnownFinding `json:"findings"`
+}
+
+func loadKnown() KnownFile {
+	var k KnownFile
+	b, err := os.ReadFile(filepath.Join(verifRoot(), "known_findings.json"))
+	if err == nil {
+		json.Unmarshal(b, &k)
+	}
+	return k
+}
+
+type Baseline struct {
+	Discharged map[string][]string `json:"discharged"` // property -> obligation names
+}
+
+func loadBaseline() Baseline {
+	var b Baseline
+	data, err := os.ReadFile(filepath.Join(verifRoot(), "baseline_obligations.json"))
+	if err == nil {
+		json.Unmarshal(data, &b)
+	}
+	if b.Discharged == nil {
+		b.Discharged = map[string][]string{}
+	}
+	return b
+}
+
+var sweepClasses = map[string]bool{"index": true, "slice": true, "nil": true, "make": true, "panic": true, "div": true, "typeassert": true, "overflow": true}
+
+// propFilter parses "C10(sweep)" / "C01(ensures,pre)" / "C11".
+func propFilter(spec string) (id string, accept func(class string) bool) {
+	id = spec
+	if i := strings.Index(spec, "("); i > 0 && strings.HasSuffix(spec, ")") {
+		id = spec[:i]
+		set := map[string]bool{}
+		for _, c := range strings.Split(spec[i+1:len(spec)-1], "|") {
+			set[strings.TrimSpace(c)] = true
+		}
+		return id, func(class string) bool {
+			if set[class] {
+				return true
+			}
+			if set["sweep"] && sweepClasses[class] {
+				return true
+			}
+			if set["functional"] && !sweepClasses[class] {
+				return true
+			}
+			return false
+		}
+	}
+	return id, func(string) bool { return true }
+}
+
+type propUnit struct {
+	name   string
+	accept func(string) bool
+}
+
+func (s *Session) unitsFor(prop string) ([]propUnit, error) {
+	var out []propUnit
+	for _, mod := range []string{"", "fsim", "sqlite"} {
+		// only load sub-modules when a mirror/contracts file exists for them
+		if mod != "" {
+			has := false
+			for _, d := range []string{filepath.Join(repoRoot(), mod), filepath.Join(verifRoot(), "contracts", mod)} {
+				if _, err := os.Stat(filepath.Join(d, "contracts_verif.go")); err == nil {
+					has = true
+				}
+			}
+			if !has {
+				continue
+			}
+			// cheap pre-scan: does the contract file mention the property?
+			mention := false
+			for _, d := range []string{filepath.Join(repoRoot(), mod), filepath.Join(verifRoot(), "contracts", mod)} {
+				if b, err := os.ReadFile(filepath.Join(d, "contracts_verif.go")); err == nil && strings.Contains(string(b), prop) {
+					mention = true
+				}
+			}
+			if !mention {
+				continue
+			}
+		}
+		p, err := s.prog(mod)
+		if err != nil {
+			return nil, err
+		}
+		for _, n := range p.CS.Order {
+			c := p.CS.ByName[n]
+			if c.Extern || moduleOf(n) != mod {
+				continue
+			}
+			for _, ps := range c.Props {
+				id, acc := propFilter(ps)
+				if id == prop {
+					out = append(out, propUnit{n, acc})
+				}
+			}
+		}
+	}
+	return out, nil
+}
+
+type replayFile struct {
+	Property   string            `json:"property"`
+	Obligation string            `json:"obligation"`
+	Function   string            `json:"function"`
+	Class      string            `json:"class"`
+	Pos        string            `json:"pos"`
+	Src        string            `json:"src"`
+	Desc       string            `json:"desc"`
+	Verdict    string            `json:"verdict"`
+	Backend    string            `json:"backend"`
+	Trace      []string          `json:"path_trace"`
+	Model      map[string]string `json:"model_inputs,omitempty"`
+	SolverOut  string            `json:"solver_output"`
+	QueryFile  string            `json:"query_file,omitempty"`
+	Replay     *ReplayResult     `json:"replay,omitempty"`
+	Note       string            `json:"note,omitempty"`
+}
+
+func matchKnown(k KnownFile, prop string, o *ObSummary) *KnownFinding {
+	for i := range k.Findings {
+		f := &k.Findings[i]
+		if f.Kind != "known" || f.Property != prop || f.Fn != o.Fn || f.Class != o.Class {
+			continue
+		}
+		if f.Label != "" && !strings.HasSuffix(o.Name, "#"+f.Label) {
+			continue
+		}
+		if f.Match != "" && !strings.Contains(o.Src, f.Match) {
+			continue
+		}
+		return f
+	}
+	return nil
+}
+
+func cmdCheck(prop, tier string) int {
+	t0 := time.Now()
+	seed := 0
+	if v := os.Getenv("VERIF_SEED"); v != "" {
+		seed, _ = strconv.Atoi(v)
+	}
+	timeout := 10
+	if tier == "thorough" {
+		timeout = 60
+	}
+	s, err := newSession("", timeout)
+	if err != nil {
+		fmt.Fprintln(os.Stderr, err)
+		return 2
+	}
+	defer s.close()
+	if tier == "thorough" {
+		s.agree = 2
+	}
+	evPath := filepath.Join(verifRoot(), "evidence", prop+".json")
+	os.MkdirAll(filepath.Dir(evPath), 0o755)
+	os.Remove(evPath)
+	replayDir := filepath.Join(verifRoot(), "replays", prop)
+	os.RemoveAll(replayDir)
+
+	fatal := func(msg string) int {
+		// the machinery could not run: this is a broken check, not a verdict
+		fmt.Fprintf(os.Stderr, "govc: %s\n", msg)
+		os.MkdirAll(replayDir, 0o755)
+		rp := filepath.Join(replayDir, "machinery.json")
+		b, _ := json.MarshalIndent(map[string]string{"property": prop, "error": msg}, "", " ")
+		os.WriteFile(rp, b, 0o644)
+		fmt.Printf("VIOLATION property=%s replay=%s obligation=<load> %s no-failing-input-found\n", prop, rp, oneLine(msg))
+		return 1
+	}
+
+	units, err := s.unitsFor(prop)
+	if err != nil {
+		return fatal("cannot load /repo: " + err.Error())
+	}
+	if len(units) == 0 {
+		return fatal("no unit under contract serves " + prop)
+	}
+	var names []string
+	for _, u := range units {
+		names = append(names, u.name)
+	}
+	results, err := s.runUnits(names)
+	if err != nil {
+		return fatal(err.Error())
+	}
+	known := loadKnown()
+	base := loadBaseline()
+	inBase := map[string]bool{}
+	for _, n := range base.Discharged[prop] {
+		inBase[n] = true
+	}
+
+	type sample struct {
+		Obligation string  `json:"obligation"`
+		Class      string  `json:"class"`
+		Status     string  `json:"status"`
+		Backend    string  `json:"backend"`
+		Instances  int     `json:"path_instances"`
+		SolverS    float64 `json:"solver_s"`
+		Pos        string  `json:"pos,omitempty"`
+		Desc       string  `json:"desc,omitempty"`
+	}
+	var samples []sample
+	byBackend := map[string]map[string]float64{}
+	nObl, nDis := 0, 0
+	var violations, knownLines, undecided []string
+	var knownObs, undecidedObs []string
+	seen := map[string]bool{}
+	solverS := 0.0
+	var funcs []map[string]interface{}
+	assumed := map[string]bool{}
+	notes := map[string]int{}
+	havocked := map[string]int{}
+	instances := 0
+	os.MkdirAll(replayDir, 0o755)
+	replays := 0
+	writeReplay := func(o *ObSummary, verdict, note string) (string, *ReplayResult) {
+		rf := replayFile{Property: prop, Obligation: o.Name, Function: o.Fn, Class: o.Class, Pos: o.Pos, Src: o.Src, Desc: o.Desc,
+			Verdict: verdict, Backend: o.Backend, Note: note}
+		var rr *ReplayResult
+		if w := o.Witness; w != nil {
+			rf.Trace = w.Trace
+			rf.SolverOut = w.Res.Output
+			m := parseValues(w.Res.Output)
+			rf.Model = map[string]string{}
+			for _, k := range sortedKeys(w.Inputs) {
+				if v, ok := m[normSpace(w.Inputs[k])]; ok {
+					rf.Model[k] = v
+				}
+			}
+			if w.QueryFile != "" {
+				dst := filepath.Join(replayDir, sanitizeFile(o.Name)+".smt2")
+				if b, err := os.ReadFile(w.QueryFile); err == nil {
+					os.WriteFile(dst, b, 0o644)
+					rf.QueryFile = dst
+				}
+			}
+			if verdict == "sat" && replays < 3 {
+				replays++
+				rr = tryReplay(s, o, rf.Model, filepath.Join(replayDir, sanitizeFile(o.Name)+"_replay_test.go"))
+				rf.Replay = rr
+			}
+		}
+		rp := filepath.Join(replayDir, sanitizeFile(o.Name)+".json")
+		b, _ := json.MarshalIndent(rf, "", " ")
+		os.WriteFile(rp, b, 0o644)
+		return rp, rr
+	}
+	for i, r := range results {
+		u := units[i]
+		fe := map[string]interface{}{"function": r.Name, "paths": r.Paths, "path_instances": r.Instances}
+		if r.Aborted != "" {
+			fe["out_of_reach"] = r.Aborted
+			o := &ObSummary{Name: r.Name + "#unit", Class: "unit", Fn: r.Name, Desc: r.Aborted}
+			if kf := matchKnown(known, prop, o); kf != nil {
+				knownLines = append(knownLines, fmt.Sprintf("KNOWN-FINDING: property=%s %s", prop, kf.What))
+			} else {
+				rp, _ := writeReplay(o, "unit-not-verified", r.Aborted)
+				violations = append(violations, fmt.Sprintf("VIOLATION property=%s replay=%s obligation=%s (%s) no-failing-input-found", prop, rp, o.Name, oneLine(r.Aborted)))
+			}
+		}
+		funcs = append(funcs, fe)
+		for _, c := range r.UsedCons {
+			if con := s.conOf(c); con != nil && con.Extern {
+				assumed[c] = true
+			}
+		}
+		for k, v := range r.Notes {
+			notes[k] += v
+		}
+		for k, v := range r.Havocked {
+			havocked[k] += v
+		}
+		for _, o := range r.Obs {
+			if !u.accept(o.Class) && o.Class != "vacuity" {
+				continue
+			}
+			key := o.Name
+			if seen[key] {
+				continue
+			}
+			seen[key] = true
+			instances += o.Instances
+			solverS += o.Secs
+			be := o.Backend
+			if i := strings.Index(be, ":"); i > 0 {
+				be = be[:i]
+			}
+			if byBackend[be] == nil {
+				byBackend[be] = map[string]float64{}
+			}
+			byBackend[be]["obligations"]++
+			byBackend[be]["solver_s"] += o.Secs
+			if len(samples) < 12 || o.Status != "discharged" {
+				samples = append(samples, sample{o.Name, o.Class, o.Status, o.Backend, o.Instances, round3(o.Secs), o.Pos, o.Desc})
+			}
+			switch o.Status {
+			case "discharged":
+				nObl++
+				nDis++
+			case "failed":
+				if kf := matchKnown(known, prop, o); kf != nil {
+					knownLines = append(knownLines, fmt.Sprintf("KNOWN-FINDING: property=%s %s [%s at %s]", prop, kf.What, o.Name, o.Pos))
+					knownObs = append(knownObs, o.Name)
+					continue
+				}
+				nObl++
+				verdict := "sat"
+				if o.Class == "vacuity" {
+					verdict = "vacuous-precondition"
+				}
+				rp, rr := writeReplay(o, verdict, "")
+				line := fmt.Sprintf("VIOLATION property=%s replay=%s obligation=%s at %s", prop, rp, o.Name, o.Pos)
+				if rr == nil || !rr.Confirmed {
+					line += " no-failing-input-found"
+				}
+				violations = append(violations, line)
+			default: // undecided
+				if kf := matchKnown(known, prop, o); kf != nil {
+					knownLines = append(knownLines, fmt.Sprintf("KNOWN-FINDING: property=%s %s [%s at %s]", prop, kf.What, o.Name, o.Pos))
+					knownObs = append(knownObs, o.Name)
+					continue
+				}
+				if inBase[o.Name] {
+					nObl++
+					rp, _ := writeReplay(o, "undecided:"+o.Backend, "discharged in the baseline, not discharged now")
+					violations = append(violations, fmt.Sprintf("VIOLATION property=%s replay=%s obligation=%s at %s no-failing-input-found", prop, rp, o.Name, o.Pos))
+				} else {
+					undecided = append(undecided, fmt.Sprintf("UNDECIDED: property=%s obligation=%s (%s) — not in the baseline, not counted", prop, o.Name, o.Backend))
+					undecidedObs = append(undecidedObs, o.Name)
+				}
+			}
+		}
+	}
+	// baseline obligations that no longer exist (renamed/removed code): report
+	var missing []string
+	for n := range inBase {
+		if !seen[n] {
+			missing = append(missing, n)
+		}
+	}
+	sort.Strings(missing)
+
+	for _, l := range knownLines {
+		fmt.Println(l)
+	}
+	for _, l := range undecided {
+		fmt.Println(l)
+	}
+	for _, l := range violations {
+		fmt.Println(l)
+	}
+	if nObl == 0 && len(violations) == 0 {
+		return fatal("no obligations were generated (vacuous check)")
+	}
+
+	// evidence
+	var assumedList []string
+	for _, c := range sortedKeys(assumed) {
+		assumedList = append(assumedList, c)
+	}
+	trusted := []string{
+		"golang.org/x/tools go/packages, go/types, go/ssa v0.50.0: the SSA form is taken as the meaning of the source",
+		"govc symbolic semantics (DESIGN.md 1.1): bit-vector integers (int = 64 bit, GOARCH=amd64), per-path object store without aliasing between distinct symbolic inputs, loops cut at headers with written invariants",
+		"SMT solvers z3 5.1.0, z3 4.8.12, cvc5 1.0 (raced; thorough tier demands two agreeing answers)",
+		"assumed contracts in /verif/spec/assumed/*.spec (dependencies, interfaces, crypto as uninterpreted functions)",
+	}
+	cov := map[string]interface{}{
+		"obligations":              nObl,
+		"discharged":               nDis,
+		"checker_cmd":              fmt.Sprintf("/verif/check %s %s", prop, tier),
+		"trusted_base":             trusted,
+		"functions_under_contract": funcs,
+		"path_instances":           instances,
+		"by_backend":               byBackend,
+		"solver_time_s":            round3(solverS),
+		"load_time_s":              round3(s.LoadSecs),
+		"samples":                  samples,
+		"assumed_contracts_used":   assumedList,
+		"abstractions_hit":         notes,
+		"callees_havocked":         havocked,
+		"known_finding_obligations": knownObs,
+		"undecided_not_counted":    undecidedObs,
+		"baseline_obligations_missing": missing,
+		"contract_mirror_used":     s.fallbackContracts,
+		"explanation":              "obligations = named proof obligations (requires at call sites, ensures, loop invariants, safety sweep, vacuity) of the functions under contract serving this property; each is discharged when every path instance is unsat. Obligations matched by a known finding or never discharged before are listed separately and not counted.",
+	}
+	ev := map[string]interface{}{
+		"property_id": prop,
+		"tier":        tier,
+		"seed":        seed,
+		"level":       "proof",
+		"coverage":    cov,
+		"assumptions": append(assumptionsFor(prop), assumedList...),
+		"wall_s":      round3(time.Since(t0).Seconds()),
+		"violations":  len(violations),
+	}
+	b, _ := json.MarshalIndent(ev, "", " ")
+	if err := os.WriteFile(evPath, b, 0o644); err != nil {
+		fmt.Fprintln(os.Stderr, err)
+		return 2
+	}
+	fmt.Printf("%s %s: %d obligations, %d discharged, %d known findings, %d undecided, %d violations, %.1fs\n",
+		prop, tier, nObl, nDis, len(knownObs), len(undecidedObs), len(violations), time.Since(t0).Seconds())
+	if len(violations) > 0 {
+		return 1
+	}
+	return 0
+}
+
+func (s *Session) conOf(name string) *Contract {
+	for _, p := range s.progs {
+		if c, ok := p.CS.ByName[name]; ok {
+			return c
+		}
+	}
+	return nil
+}
+
+func oneLine(s string) string {
+	s = strings.ReplaceAll(s, "\n", " ")
+	if len(s) > 200 {
+		s = s[:200]
+	}
+	return s
+}
+
+func round3(f float64) float64 { return float64(int(f*1000+0.5)) / 1000 }
+
+func assumptionsFor(prop string) []string {
+	common := []string{
+		"machine integers are 64-bit two's complement (amd64); no mathematical-integer abstraction is used",
+		"distinct pointer/slice inputs of a function do not alias; every object is smaller than 2^62 bytes",
+		"package-level sentinel errors and registries are not reassigned after package initialisation",
+		"non-error results of calls are not nil-checked unless a contract says so; only pointers loaded from memory are subject to the nil obligation",
+		"goroutines, channels, select and sync are outside the subset: such instructions havoc what they touch and no obligation about schedules is generated",
+		"termination is not proved",
+	}
+	b, err := os.ReadFile(filepath.Join(verifRoot(), "spec", "not_decided.json"))
+	if err == nil {
+		var m map[string][]string
+		if json.Unmarshal(b, &m) == nil {
+			for _, x := range m[prop] {
+				common = append(common, "NOT DECIDED: "+x)
+			}
+		}
+	}
+	return common
+}
+
+// cmdBaseline recomputes baseline_obligations.json from the current tree.
+func cmdBaseline() int {
+	props := []string{}
+	for i := 1; i <= 20; i++ {
+		props = append(props, fmt.Sprintf("C%02d", i))
+	}
+	s, err := newSession("", 10)
+	if err != nil {
+		return 2
+	}
+	defer s.close()
+	base := Baseline{Discharged: map[string][]string{}}
+	for _, prop := range props {
+		units, err := s.unitsFor(prop)
+		if err != nil {
+			fmt.Fprintln(os.Stderr, err)
+			return 2
+		}
+		if len(units) == 0 {
+			continue
+		}
+		var names []string
+		for _, u := range units {
+			names = append(names, u.name)
+		}
+		results, err := s.runUnits(names)
+		if err != nil {
+			fmt.Fprintln(os.Stderr, err)
+			return 2
+		}
+		set := map[string]bool{}
+		for i, r := range results {
+			for _, o := range r.Obs {
+				if (units[i].accept(o.Class) || o.Class == "vacuity") && o.Status == "discharged" {
+					set[o.Name] = true
+				}
+			}
+		}
+		base.Discharged[prop] = sortedKeys(set)
+		fmt.Printf("%s: %d discharged obligations\n", prop, len(set))
+	}
+	b, _ := json.MarshalIndent(base, "", " ")
+	os.WriteFile(filepath.Join(verifRoot(), "baseline_obligations.json"), b, 0o644)
+	return 0
+}
+
+func cmdSelftest(args []string) int { return runSelftest(args) }
